@@ -61,6 +61,8 @@ func main() {
 		runC18(*out, *seed, *tier)
 	case "C12":
 		runC12(*out, *seed, *tier)
+	case "C15":
+		runC15(*out, *seed, *tier)
 	case "C10":
 		runC10(*out, *seed, *tier)
 	case "C04":
